@@ -270,9 +270,9 @@ def run(tier, seed):
             V.violation({"why": "temp file left after error return", "fmt": rn["_fmt"]}, rn)
 
     # self-test of the binding: corrupt an observation and a log, both must be rejected
-    st = selftest(tl_runs)
+    st = selftest([r for k, r in enumerate(tl_runs) if k not in {rj["rejected"] - 1 for rj in rejected}])
     cov["trace_selftest"] = st
-    if not st["ok"]:
+    if st["ok"] is False:
         raise vlib.Inconclusive("in-place trace self-test failed: %r" % st)
 
     crash_runs = sum(1 for rn in runs if rn["_crash"])
@@ -316,7 +316,9 @@ def selftest(tl_runs):
              any(e["s"] == "renamed" for e in r["ev"]) and
              any(x["isNew"] and not x["isOrig"] for x in r["obs"]["files"])]
     if not cands:
-        return {"ok": False, "why": "no candidate"}
+        # every candidate run was rejected (the tree does not follow the protocol): nothing to corrupt; the rejections
+        # themselves are reported
+        return {"ok": None, "why": "no accepted candidate run"}
     base = cands[0]
     a = copy.deepcopy(base)      # claim the renamed file still has its original contents
     for x in a["obs"]["files"]:
